@@ -48,7 +48,9 @@ class InterruptableThread(threading.Thread):
         """
         try:
             self.result = self.func(*self.args, **self.kwargs)
-        except Exception:
+        except BaseException:
+            # Including SystemExit (a student's sys.exit()); the caller
+            # decides what each kind of exception means.
             self.exc_info = sys.exc_info()
 
     @staticmethod
@@ -110,12 +112,12 @@ def timeout(duration, func, *args, **kwargs):
     else:
         if target_thread.exc_info[0] is not None:
             ei = target_thread.exc_info
-            # Python 2 had the three-argument raise statement; thanks to PEP
-            # 3109 for showing how to convert that to valid Python 3 statements.
-            e = ei[0](ei[1])
-            e.__traceback__ = ei[2]
+            # Re-raise the very exception object (building a new one from the
+            # class loses the position of a SyntaxError and fails for classes
+            # whose constructor takes other arguments).
+            e = ei[1]
             e.exc_info = target_thread.exc_info
-            raise e
+            raise e.with_traceback(ei[2])
         return target_thread.result
 
 
